@@ -117,6 +117,12 @@ func runC03(c *Ctx) {
 	})
 	c.Min("C03-R1", 8)
 
+	c.Rule("C03-R1b", "read-through caches in front of the chain database hold only what was loaded, under the key it was asked for", func() {
+		n := c.CacheReadThroughRule("C03-R1b", map[string]bool{"core": true})
+		c.Ob("C03-R1b", "read-through caches found in package core", "", n >= 5, fmt.Sprintf("%d functions that look up and fill an lru cache", n))
+	})
+	c.Min("C03-R1b", 6)
+
 	c.Rule("C03-R2", "reorg bookkeeping: new chain inserted oldest-first with lookups; dropped-minus-added lookups deleted", func() {
 		rg := c.Fn("core:(*BlockChain).reorg")
 		f := c.Facts(rg)
